@@ -700,10 +700,15 @@ class ModuleStub(Stub):
         parts = []
         if self.imports_stub.imports:
             parts.append(self.imports_stub.render())
-        for typed_dict_class_stub in sorted(
-            self.typed_dict_class_stubs, key=lambda s: s.name
-        ):
-            parts.append(typed_dict_class_stub.render())
+        # Generated class names are not unique (they are derived from parameter
+        # names): order equally named classes by their text, not by the order in
+        # which the traces happened to arrive.
+        parts.extend(
+            sorted(
+                (stub.render() for stub in self.typed_dict_class_stubs),
+                key=lambda text: (text.partition("\n")[0], text),
+            )
+        )
         for func_stub in sorted(self.function_stubs.values(), key=lambda s: s.name):
             parts.append(func_stub.render())
         for class_stub in sorted(self.class_stubs.values(), key=lambda s: s.name):
